@@ -43,6 +43,14 @@ class LibInterp(Interp):
             raise HostOrdering(node)
         return super().compare(op, a, b, node)
 
+    def _eq(self, a, b):
+        va = isinstance(a, Sym) and a.kind == 'val'
+        vb = isinstance(b, Sym) and b.kind == 'val'
+        if (va or vb) and a is not b and not (va and vb and a == b and False):
+            # host == between script values: True == 1, 1 == 1.0, [True] == [1] ... differs from the value comparison
+            raise HostOrdering(None)
+        return Interp._eq(a, b)
+
     def builtin_hook(self, name, args, e):
         if name in ('min', 'max', 'sorted') and args:
             items = self.iterate(args[0], e) if len(args) == 1 else list(args)
@@ -71,6 +79,34 @@ class LibInterp(Interp):
 
 def val(tag, atom='float'):
     return Sym('val', tag, True, atom)
+
+
+def sort_fn_scenarios():
+    """(sorts, row1, row2, expected sign) over opaque values with rank a < b < c and null lowest"""
+    A, B, C = val('a'), val('b'), val('c')
+    rk = {'a': 1, 'b': 2, 'c': 3}
+    rows = [{'x': A, 'y': B}, {'x': A, 'y': C}, {'x': B, 'y': A}, {'x': A, 'y': B}, {'x': None, 'y': A}, {'y': B}]
+    sort_specs = [[['x']], [['x', False]], [['x', True]], [['x'], ['y']], [['x', True], ['y']], [['x'], ['y', True]], [['y', True], ['x', True]], []]
+
+    def rank(v):
+        return -1 if v is None else rk[v.args[0]]
+
+    def sign(x):
+        return (x > 0) - (x < 0)
+    out = []
+    for spec in sort_specs:
+        for r1 in rows:
+            for r2 in rows:
+                want = 0
+                for s_ in spec:
+                    c = sign(rank(r1.get(s_[0])) - rank(r2.get(s_[0])))
+                    if len(s_) > 1 and s_[1]:
+                        c = -c
+                    if c:
+                        want = c
+                        break
+                out.append((spec, r1, r2, want))
+    return rk, out
 
 
 def minmax_scenarios():
